@@ -96,6 +96,7 @@ def execute(plan):
 
 def _expect_underrun_error(fn, pres, k):
     from pyasn1 import error
+    streams.reset_drop_events()
     try:
         out = fn()
     except error.SubstrateUnderrunError:
@@ -137,6 +138,7 @@ def _check_cut(wl, e, k, conf, trace, ctr, sites, only_pres):
 def _check_streaming(wl, prefix, k, conf, trace, ctr, sites):
     from pyasn1 import error
     pres = 'streaming'
+    streams.reset_drop_events()
     st = W.open_stream(conf['stream_kind'], prefix, trace)
     cons = W.Consumer(wl.dec_mod, st, wl.spec, wl.dec_kw, trace=trace)
 
